@@ -310,7 +310,9 @@ def applyPatch (file : List Line) (p0 : Patch) (o : ApplyOpts) (tty : Option (Li
     if shouldCheckReversed loc o then
       let hr := reverseHunk h0
       let rloc := locateHunk file hr o.ignoreWhitespace 0 o.maxFuzz 0
-      let suspicious := isPerfect rloc || (loc.isNone && rloc.isSome)
+      -- a reversed hunk without old lines (the reversal of a pure removal) is "found" wherever it says: no evidence, unless the hunk
+      -- itself was not found at all
+      let suspicious := (hr.old.count != 0 && isPerfect rloc) || (loc.isNone && rloc.isSome)
       let decided : Except Exn (ReverseHandling × List Msg × Option (List Bool)) :=
         if suspicious then
           match checkHowToHandleReversed o tty with
